@@ -46,7 +46,7 @@ ASSUMPTIONS = [
 ]
 
 
-EXPECTED_PROBES = ['capacity_set_through_size_property', 'numpy_integer_identifiers', 'policy_set_through_property', 'policy_switched_on_empty_heap', 'several_heaps_interleaved', 'removed_id_inserted_again', 'heap_emptied_by_pop', 'heap_full', 'heap_refilled_after_emptying', 'internal_arrays_inconsistent_while_behaviour_ok', 'pop_with_tie_at_extremum', 'real_fit_', 'real_trace_precondition_breach', 'real_trace_seam_not_engaged', 'real_update_of_queued', 'update_as_insert', 'update_strictly_improves']
+EXPECTED_PROBES = ['caller_owned_cost_table', 'capacity_set_through_size_property', 'numpy_integer_identifiers', 'policy_set_through_property', 'policy_switched_on_empty_heap', 'several_heaps_interleaved', 'removed_id_inserted_again', 'heap_emptied_by_pop', 'heap_full', 'heap_refilled_after_emptying', 'internal_arrays_inconsistent_while_behaviour_ok', 'pop_with_tie_at_extremum', 'real_fit_', 'real_trace_precondition_breach', 'real_trace_seam_not_engaged', 'real_update_of_queued', 'update_as_insert', 'update_strictly_improves']
 
 
 def arms(tier):
@@ -88,6 +88,7 @@ ALPHABETS = {
     "bigint": [2**53, 2**53 + 1, 2**53 + 2, 2**53 + 3, -(2**53) - 1, -(2**53) - 2, 0, 2**60 + 1],
     "binary": [0.0, 1.0],
     "numpy": "numpy",
+    "uint8": "uint8",
 }
 
 
@@ -97,11 +98,15 @@ def _cost(rng, alpha):
         return round(rng.uniform(-100, 100), 2)
     if a == "numpy":
         return ["np", float(rng.randint(0, 4))]  # decoded to np.float64 by the executor (what np.maximum hands the heap)
+    if a == "uint8":
+        return ["u8", rng.randint(0, 200)]  # decoded to np.uint8 (e.g. keys taken from an integer distance table)
     return rng.choice(a)
 
 
 def _dec(c):
-    return np.float64(c[1]) if isinstance(c, list) else c
+    if isinstance(c, list):
+        return np.uint8(c[1]) if c[0] == "u8" else np.float64(c[1])
+    return c
 
 
 def gen_case(rng, arm, tier, k=0):
@@ -111,7 +116,7 @@ def gen_case(rng, arm, tier, k=0):
         return gen_duo(rng)
     size = rng.randint(1, 12) if arm == "synth" else rng.randint(8, 64)
     policy = rng.choice(("min", "max"))
-    alpha = rng.choice(("tiny", "small", "float", "extreme", "binary", "tiny", "float", "numpy", "infinite", "bigint"))
+    alpha = rng.choice(("tiny", "small", "float", "extreme", "binary", "tiny", "float", "numpy", "infinite", "bigint", "uint8"))
     length = rng.randint(1, 80 if arm == "synth" else 200)
     w_put = rng.choice((1, 2, 4))
     w_updn = rng.choice((0, 1, 3))
@@ -119,7 +124,7 @@ def gen_case(rng, arm, tier, k=0):
     w_pop = rng.choice((1, 2, 3))
     w_fault = rng.choice((0, 0, 1, 2))
     fill_first = rng.random() < 0.25  # bias towards a full heap so insert-on-full fires
-    val = lambda c_: c_[1] if isinstance(c_, list) else c_  # noqa: E731
+    val = lambda c_: c_[1] if isinstance(c_, list) else c_  # noqa: E731  (works for ["np", v] and ["u8", v])
     better = (lambda a, b: val(a) <= val(b)) if policy == "min" else (lambda a, b: val(a) >= val(b))
     queued = {}
     fresh = list(range(size))
@@ -200,6 +205,8 @@ def gen_case(rng, arm, tier, k=0):
     if rng.random() < 0.2:
         # the policy is chosen through the public `policy` property after construction
         case["ctor_policy"] = rng.choice(("min", "max"))
+    if rng.random() < 0.12:
+        case["caller_table"] = True  # the caller installs its own cost list through the `cost` property and writes into it
     if rng.random() < 0.12:
         # the capacity is set through the public `size` property of a larger, still empty heap
         case["ctor_size"] = size + rng.randint(1, 6)
@@ -314,6 +321,11 @@ def run_synth(case, out):
     if ctor_size != size:
         h.size = size
         bump(out.probes, "capacity_set_through_size_property")
+    table = None
+    if case.get("caller_table"):
+        table = [FMAX for _ in range(max(size, ctor_size))]
+        h.cost = table  # from now on the caller writes keys into its own list
+        bump(out.probes, "caller_owned_cost_table")
     m = PQModel(size, policy)
     log = EventLog()
     states = set()
@@ -332,7 +344,10 @@ def run_synth(case, out):
                 continue
             if i in m.ever:
                 bump(out.probes, "removed_id_inserted_again")
-            h.cost[i] = c
+            if table is not None:
+                table[i] = c
+            else:
+                h.cost[i] = c
             r = lib_call("insert", h.insert, ident(i))
             if not r:
                 raise Stop(violation("insert-reported-failure", "insert(%d) into a heap holding %d of %d returned %r (%s)" % (i, len(m.queued), size, r, ctx), policy=policy, reinsert=i in m.ever))
@@ -357,7 +372,7 @@ def run_synth(case, out):
                 norm.append(("updq", i, c))
             elif i not in m.ever:
                 if rng_free_table_write(op):
-                    h.cost[i] = c  # the caller writes the key first and then queues through update
+                    (table if table is not None else h.cost)[i] = c  # the caller writes the key first and then queues through update
                 lib_call("update", h.update, ident(i), c)
                 m.queued[i] = c
                 m.ever.add(i)
